@@ -162,6 +162,20 @@ Check (C03_roundtrip :
   decode_packet W o stB from wire =
     route stB i r p (adjust_rel (addr_reliable (ps_addr r)) x') payload).
 
+Check (C03_group_encode_auth :
+  forall (W : world) (s : psess) (stB : pstate) (from : addr) (c : gcand) (others : list gcand)
+         (p : plain_hdr) (x : proto_hdr) (payload wire : list N),
+  world_functional W ->
+  plain_wf p = true -> proto_wf x = true ->
+  mode_enc (ps_mode s) = true ->
+  session_encode W s p x payload = Ok wire ->
+  find_sess (st_sessions stB) from p = None ->
+  plain_group p = true -> plain_get_src p = Some (ps_local_node s) ->
+  is_none (plain_get_dst_groupcast p) && is_none (plain_get_dst_unicast p) = false ->
+  (length wire - length (plain_encode p) <= 1280)%nat ->
+  group_cands stB p = c :: others -> gc_key c = ps_enc_key s ->
+  auth_check W stB from wire = AuthGroup c p (adjust_rel (addr_reliable from) x) payload).
+
 Check (C03_monitor_delivered :
   forall (W : world) (st : pstate) (from : addr) (wire : list N) (ob : observation) (b : bool),
   mon_decode W st from wire ob = true -> ob_ok ob = Some b ->
